@@ -407,6 +407,85 @@ def rand_table(rng):
     return dict(gen="table", p=p, block="random")
 
 
+def table_route_cases(rng, n):
+    """tables obtained from other objects (every route of the library that returns a Table), then table operations;
+    boundary header / index values: "" and None"""
+    out = []
+    def add(**p):
+        out.append(dict(gen="table", p=p, block="enum"))
+    seqs = {"a": "ACGTTA", "b": "ACGGTA", "c": "ATGGTC"}
+    lf = dict(model="HKY85", tree=TREE3, aln=ALN3, ops=[["rule", dict(par_name="kappa", init=2.5)]])
+    lf4 = dict(model="GTR", tree=TREE4, aln=ALN4, ops=[["rule", dict(par_name="length", edges=["a", "b"], is_independent=False)]])
+    add(route="darr", names=[["a", "b"], ["x", "y", "z"]], array=[[1, 2, 3], [4, 5, 6]], header=[], rows=[])
+    add(route="darr", names=[["a", "b"], ["x", "y"]], array=[[1, 2], [4, 5]], dtype="int", header=[], rows=[], ops=[["sorted", ["x"], None]])
+    add(route="darr", names=[["r"], ["x", "y"]], array=[[0.5, 0.25]], header=[], rows=[], ops=[["set_title", "t"]])
+    add(route="darr", names=[[0, 1], [0, 1]], array=[[1, 2], [3, 4]], header=[], rows=[])
+    add(route="dmat", dists=[[["a", "b"], 0.1], [["b", "a"], 0.1], [["a", "c"], 0.3], [["c", "a"], 0.3], [["b", "c"], 0.2], [["c", "b"], 0.2]], header=[], rows=[])
+    for r in ("counts_per_seq", "counts_per_pos", "probs_per_pos", "pssm", "aln_dmat", "entropy"):
+        add(route=r, seqs=seqs, header=[], rows=[])
+        add(route=r, seqs=seqs, header=[], rows=[], ops=[["slice_rows", 0, 2], ["json"]])
+    for w in range(3):
+        add(route="lf_stats", lf=lf, which=w, header=[], rows=[])
+        add(route="lf_stats", lf=lf4, which=w, header=[], rows=[])
+    add(route="count_unique", header=["k", "v"], rows=[["x", 1], ["y", 2], ["x", 3]])
+    add(route="db_counts", header=[], rows=[])
+    # boundary values made directly
+    add(header=["", "a"], rows=[["r1", 1], ["r2", 2]], index_name="")
+    add(header=["", "a"], rows=[["r1", 1], ["r2", 2]])
+    add(header=["a", ""], rows=[[1, "x"], [2, "y"]], index_name="a", title="")
+    add(header=["a", "b"], rows=[[0, 0.0], [1, 0.0]], index_name="a", legend="", ops=[["set_title", ""]])
+    add(header=["a", "b"], rows=[["", 0], ["x", 1]], index_name="a")
+    add(header=["0", "1"], rows=[[0, False], [1, True]], index_name="0", digits=0, space=0) if False else None
+    add(header=["a"], rows=[], index_name=None)
+    add(header=[], rows=[])
+    for _ in range(n):
+        k = rng.choice([2, 3])
+        rows_ = rng.sample(["a", "b", "c", "", "r 1"], k)
+        cols_ = rng.sample(["x", "y", "z", "w"], rng.choice([1, 2, 3]))
+        arr = [[rng.choice([0, 1, 2.5, -1]) for _ in cols_] for _ in rows_]
+        ops = []
+        for _ in range(rng.choice([0, 1, 2])):
+            ops.append(rng.choice([["sorted", [cols_[0]], None], ["slice_rows", 0, k - 1], ["get_columns", ["", cols_[-1]]], ["json"], ["set_title", "T"],
+                                   ["with_new_column", "n", cols_[0]], ["with_new_header", cols_[0], "q"]]))
+        add(route="darr", names=[rows_, cols_], array=arr, header=[], rows=[], ops=ops)
+    return [c for c in out if c is not None]
+
+
+def boundary_cases():
+    """falsy values that are not None, for every modelled decoder: empty name, zero offset, empty info, no spans, 0.0 lengths"""
+    out = []
+    for new in (False, True):
+        for nm in ("", None, "0"):
+            for off in (0, 1):
+                out.append(dict(gen="seq", p=dict(seq="ACGTAC", name=nm, moltype="dna", offset=off, new=new, ops=[["slice", 0, None, None]]), block="enum"))
+                out.append(dict(gen="seq", p=dict(seq="", name=nm, moltype="dna", offset=off, new=new, ops=[]), block="enum"))
+        out.append(dict(gen="seq", p=dict(seq="ACGTAC", name="s", moltype="dna", offset=0, new=new, info={}, ops=[["info", "k", 0], ["info", "e", ""]]), block="enum"))
+        out.append(dict(gen="seq", p=dict(seq="ACGTAC", name="s", moltype="dna", offset=0, new=new, ops=[["info", "z", None]]), block="enum"))
+    out.append(dict(gen="imap", p=dict(kind="fmap", locations=[], plen=5, ops=[]), block="enum"))
+    out.append(dict(gen="imap", p=dict(kind="fmap", locations=[], plen=0, ops=[]), block="enum"))
+    out.append(dict(gen="imap", p=dict(kind="fmap", locations=[[0, 0]], plen=3, ops=[]), block="enum"))
+    out.append(dict(gen="imap", p=dict(kind="imap", gap_pos=[], gap_lengths=[], plen=0, ops=[]), block="enum"))
+    out.append(dict(gen="imap", p=dict(kind="imap", gap_pos=[0], gap_lengths=[1], plen=0, ops=[]), block="enum"))
+    out.append(dict(gen="aligned", p=dict(moltype="dna", seqs={"x": "----", "y": "ACGT"}, ops=[], row=0, row_ops=[]), block="enum"))
+    out.append(dict(gen="aligned", p=dict(moltype="dna", seqs={"x": "A---", "y": "ACGT"}, ops=[["slice", 1, 4, None]], row=0, row_ops=[]), block="enum"))
+    out.append(dict(gen="aln", p=dict(cls="aln", moltype="dna", seqs={"a": "AC-T", "b": "ACGT"}, info={}, ops=[["slice", 0, 0, None]]), block="enum"))
+    out.append(dict(gen="aln", p=dict(cls="aln", moltype="dna", seqs={"a": "AC-T", "b": "ACGT"}, ops=[["info", "k", 0]]), block="enum"))
+    out.append(dict(gen="tree", p=dict(newick="((a:0.0,b:0):0.0,c:0.0);", ops=[]), block="enum"))
+    out.append(dict(gen="tree", p=dict(newick="((a:1,b:2)ab:3,c:4);", ops=[["param", "a", "kappa", 0], ["param", "b", "flag", False], ["param", "c", "note", ""], ["set_length", "a", 0.0]]), block="enum"))
+    out.append(dict(gen="tree", p=dict(newick="(a,b);", ops=[]), block="enum"))
+    for (t, o, m, s_) in [("", "", "", ""), ("ERROR", "o", "m", ""), ("FALSE", "o", "", None), ("ERROR", "0", "0", "0")]:
+        out.append(dict(gen="result", p=dict(kind="nc", type=t, origin=o, message=m, source=s_), block="enum"))
+    out.append(dict(gen="darr", p=dict(kind="darr", names=[["", "b"], [0, 1]], array=[[0, 0], [0, 1]], dtype="int"), block="enum"))
+    out.append(dict(gen="darr", p=dict(kind="darr", names=[[""]], array=[0.0]), block="enum"))
+    out.append(dict(gen="darr", p=dict(kind="dmat", dists=[[["a", "b"], 0.0], [["b", "a"], 0.0]]), block="enum"))
+    out.append(dict(gen="lf", p=dict(model="HKY85", tree=TREE3, aln=ALN3, name="", ops=[["rule", dict(par_name="kappa", is_constant=True, value=1.0)]]), block="enum"))
+    out.append(dict(gen="lf", p=dict(model="HKY85", tree=TREE3, aln=ALN3, ops=[["lengths", {"a": 0.0}], ["rule", dict(par_name="kappa", init=1e-6, lower=0.0)]]), block="enum"))
+    out.append(dict(gen="db", p=dict(kind="basic", ops=[]), block="enum"))
+    out.append(dict(gen="db", p=dict(kind="basic", ops=[["add", dict(seqid="", biotype="", name="", spans=[[0, 0]], strand=None)]]), block="enum"))
+    out.append(dict(gen="seq_db", p=dict(seq="ACGTACGT", name="s", moltype="dna", offset=0, features=[dict(biotype="gene", name="", spans=[[0, 1]], strand=None)], ops=[]), block="enum"))
+    return out
+
+
 def rand_darr(rng):
     r = rng.random()
     if r < 0.35:
@@ -655,6 +734,8 @@ def build_cases(tier, rng, widen=1):
     cases += [dict(gen="tree", p=dict(newick="((a:1,b:1,c:1)n1:2,d:2);", ops=[["bifurcating"]]), block="enum")]
     cases += [rand_tree(rng) for _ in range(n(120, 2400))]
     cases += [rand_table(rng) for _ in range(n(150, 3600))]
+    cases += table_route_cases(rng, n(25, 400))
+    cases += boundary_cases()
     cases += [rand_darr(rng) for _ in range(n(150, 2400))]
     cases += alpha_cases(tier)
     cases += sm_cases(tier)
